@@ -108,9 +108,16 @@ def r2_solver_siblings(ctx, rid):
             # record cadence
             a = (s.store.get("stride_expr"), s.rows_expr)
             b = (ref.store.get("stride_expr"), ref.rows_expr)
-            if a == b:
-                ctx.ok(rid, s.f, s.store.get("node") or s.f.node, "stride and row count agree with the reference sibling", {"stride,rows": a},
-                       label="record cadence")
+            own = S.cadence_defects(s, rid) if a == b else []
+            if a == b and own and not S.cadence_defects(ref, rid):
+                ctx.violation(rid, s.f, s.store.get("node") or s.f.node,
+                              f"{s.f.qualname} does not keep the sample-then-step cadence of {ref.f.qualname} ({', '.join(own)}): the state and the "
+                              f"time counter handed from one stored block to the next must be those the last step ended on, otherwise "
+                              f"time-dependent terms (extrinsic inputs, histories) are read at other positions than on the reference backend",
+                              {"defects": own}, label="record cadence")
+            elif a == b:
+                ctx.ok(rid, s.f, s.store.get("node") or s.f.node, "stride, row count and block hand-over agree with the reference sibling",
+                       {"stride,rows": a}, label="record cadence")
             else:
                 ctx.violation(rid, s.f, s.store.get("node") or s.f.node, f"stride/rows {a} differ from the reference sibling's {b}",
                               label="record cadence")
